@@ -72,16 +72,16 @@ def _expanded_goal(goal):
         signal.signal(signal.SIGALRM, old)
 
 
-def build_smt2(vc: VC, congruence: bool = True, max_fact_size: int | None = None) -> str:
+def build_smt2(vc: VC, congruence: bool = True, max_fact_size: int | None = None, abstract: bool = False) -> str:
     """SMT-LIB text of  facts /\\ side axioms /\\ denominators non-zero /\\ not goal.
     Uninterpreted applications are Ackermann-reduced to constants; with ``congruence`` the reduction
     is exact (equisatisfiable), without it the query is weaker (unsat is still sound, sat is not)."""
-    enc = Encoder(ack=True)
+    enc = Encoder(ack=True, abstract=abstract)
     s = z3.Solver()
     chosen = vc.facts if max_fact_size is None else [f for f in vc.facts if sp.count_ops(f) <= max_fact_size]
     facts = [enc.boolean(f) for f in chosen]
     sgoal = vc.goal
-    if vc.expect != "sat":
+    if vc.expect != "sat" and not abstract:
         if "expanded_goal" not in vc.meta:
             vc.meta["expanded_goal"] = _expanded_goal(vc.goal)
         if vc.meta["expanded_goal"] is not None:
@@ -412,6 +412,13 @@ def discharge(vcs: list, second_opinion: bool = False, timeout_ms: int | None = 
             vc.verdict, vc.detail = "unknown", f"encode: {exc}"
             continue
         fast = []
+        if vc.expect == "valid" and vc.kind != "lemma":
+            # structural obligations (which bracket, which branch, which argument) usually do not need the arithmetic at all:
+            # every non-linear subterm abstracted to one constant (a relaxation of the query, so its unsat carries over)
+            try:
+                fast.append(("linear-abstraction", build_smt2(vc, congruence=False, abstract=True)))
+            except Exception:
+                pass
         if vc.expect == "valid":
             sizes = sorted(sp.count_ops(f) for f in vc.facts)
             if sizes and sizes[-1] > 60:
